@@ -403,6 +403,9 @@ class HostFunc(object):
         return host_result(self.index, args, rs[0]) if rs else None
 
 
+CLASSIFY = None      # set by vf.hazard (avoids an import cycle)
+
+
 class _Br(Exception):
     def __init__(self, depth):
         self.depth = depth
@@ -418,7 +421,7 @@ MAY_FAIL_PAGES = 16384      # grows above 1 GiB may legitimately fail
 class Instance(object):
     """imports: dict (module bytes, name bytes) -> HostFunc | Memory | Table | GlobalCell | (Instance, funcidx)"""
 
-    def __init__(self, module, imports=None, tag=0, fuel=2000000, big_endian_view=False):
+    def __init__(self, module, imports=None, tag=0, fuel=2000000, hazards=None):
         self.m = m = module
         self.tag = tag
         self.fuel = fuel
@@ -428,6 +431,7 @@ class Instance(object):
         self.mem = None
         self.table = None
         self.dropped = set()
+        self.hz = hazards
         imports = imports or {}
         for mod, name, kind, desc in m.imports:
             obj = imports[(mod, name)]
@@ -546,8 +550,14 @@ class Instance(object):
             if fn is not None:
                 if ARITY[op] == 2:
                     b = st.pop()
+                    if self.hz is not None:
+                        for c in CLASSIFY(op, st[-1], b):
+                            self.hz[op + ':' + c] += 1
                     st[-1] = fn(st[-1], b)
                 else:
+                    if self.hz is not None:
+                        for c in CLASSIFY(op, st[-1]):
+                            self.hz[op + ':' + c] += 1
                     st[-1] = fn(st[-1])
             elif op == 'local.get':
                 st.append(loc[ins[1]])
